@@ -50,6 +50,7 @@ func runC08(e *Env) {
 	ruleC08Bytes(e)
 	ruleC08Object(e)
 	e.S.Floor("C08.object", 6)
+	ruleC08Kind(e, "C08.max")
 	e.S.Floor("C08.bytes", 24)
 	e.S.Floor("C08.ovf", 8)
 	e.S.Floor("C08.text", 6)
@@ -694,4 +695,24 @@ func typeAssertOperand(v ssa.Value) ssa.Value {
 		return ta.X
 	}
 	return nil
+}
+
+// ruleC08Kind: internal.Kind classifies by the kind of the dynamic type (reflect), not by a test for exact types: the
+// numeric constraints admit named types (~int, ~uint16, …), whose kind is what selects the limit table row.
+func ruleC08Kind(e *Env, rule string) {
+	fn := e.Fn(rule, "internal", "Kind")
+	if fn == nil {
+		return
+	}
+	site := flow.FnName(fn)
+	ev := &pred.Evaluator{Prog: e.P.SSA, Oracle: noOracle{}}
+	out, err := ev.Eval(fn, []pred.Val{pred.Sym{Name: "value"}})
+	switch {
+	case err != nil:
+		e.S.Unk(rule, site, "Kind", "Kind is not the reflect kind of its argument's dynamic type (a test for exact types misses the named types the ~T constraints admit): "+err.Error(), e.Pos(fn))
+	case out.Ret.String() == "invoke.Kind(reflect.TypeOf(value))" || out.Ret.String() == "(reflect.Value).Kind(reflect.ValueOf(value))":
+		e.S.Ok(rule, site, "Kind", "= "+out.Ret.String(), e.Pos(fn))
+	default:
+		e.S.Bad(rule, site, "Kind", "Kind computes "+out.Ret.String()+", documented reflect.TypeOf(value).Kind()", e.Pos(fn), "type Blocks uint16")
+	}
 }
